@@ -684,6 +684,20 @@ def observe(cfg, want):
             obs["Msrc"] = mat_entries(P.linearSourceTerm(P.CellVariable(c.m, to_float_array(cfg["beta"]))), c.dims)
         if "Rsrc" in W:
             obs["Rsrc"] = vec_nested(P.constantSourceTerm(P.CellVariable(c.m, to_float_array(cfg["gamma"]))), c.dims)
+        if "srcforms" in W:
+            # the source coefficient handed over in other admissible array forms (ghost-inclusive C-ordered /
+            # Fortran-ordered / transposed-view / integer-typed, interior Fortran-ordered): same matrix, same vector
+            full_shape = [n + 2 for n in c.dims]
+            def forms_of(inner):
+                padded = np.pad(inner, 1, mode="edge")
+                return {"ghost_c": padded.copy(), "ghost_f": np.asfortranarray(padded),
+                        "ghost_t": np.ascontiguousarray(padded.T).T, "ghost_int": padded.astype(np.int64),
+                        "inner_f": np.asfortranarray(inner.copy())}
+            beta_i, gam_i = to_float_array(cfg["beta"]), to_float_array(cfg["gamma"])
+            obs["srcforms"] = {"M": {nm: mat_entries(P.linearSourceTerm(P.CellVariable(c.m, arr)), c.dims)
+                                     for nm, arr in forms_of(beta_i).items()},
+                               "R": {nm: vec_nested(P.constantSourceTerm(P.CellVariable(c.m, arr)), c.dims)
+                                     for nm, arr in forms_of(gam_i).items()}}
         if "ghost" in W:
             from pyfvtool.boundary import cellValuesWithBoundaries
             obs["ghost"] = lift.lift_array(cellValuesWithBoundaries(interior(c.phi_full), c.bc))[0]
